@@ -13,9 +13,9 @@ from . import core, gen, refqr, channel
 
 PROP = 'C03'
 N_LAYOUTS = len(gen.LAYOUTS)  # 168
-# enumeration plan: every layout once, the 8 Micro layouts 30 more times each (tiny symbols, the half codeword of M1/M3
+# enumeration plan: every layout once, the 8 Micro layouts 60 more times each (tiny symbols, the half codeword of M1/M3
 # and the 2-bit..4-bit mode/count headers make their boundary cases data dependent), versions 1-10 once more
-ENUM_PLAN = list(gen.LAYOUTS) + [l for l in gen.LAYOUTS if isinstance(l[0], str)] * 30 + [l for l in gen.LAYOUTS if not isinstance(l[0], str) and l[0] <= 10]
+ENUM_PLAN = list(gen.LAYOUTS) + [l for l in gen.LAYOUTS if isinstance(l[0], str)] * 60 + [l for l in gen.LAYOUTS if not isinstance(l[0], str) and l[0] <= 10]
 N_ENUM = len(ENUM_PLAN)
 QUICK_RUNS = N_ENUM + 440
 ASSUMPTIONS = [
@@ -35,7 +35,7 @@ def _sender_for_layout(rng, version, level):
         mode = 'numeric'
         cap = gen.capacity_chars(version, level, mode)
     n = gen.length_near(rng, cap)
-    if rng.random() < 0.12:
+    if rng.random() < (0.3 if micro else 0.12):
         n = cap + rng.choice((1, 1, 2))    # just beyond the ISO capacity: must be refused -- if it is accepted, the symbol must still be valid
     content = gen.text(rng, mode, n)
     kw = {'version': version, 'error': level, 'boost_error': False, 'mode': mode}
